@@ -10,6 +10,7 @@ mod util;
 pub mod refzip;
 pub mod sio;
 pub mod gen;
+pub mod genf;
 
 use engine::{Ctx, Mode, Tier};
 use std::process::{Command, Stdio};
